@@ -73,6 +73,18 @@ func VH_Route_match() {
 			good = vx.Or(good, vx.And(best[i], vParamsOK(&vRoutes[impl], &cands[i], segs, params)))
 		}
 		vx.Assert(good, "C02: bind parameters are exactly what the matched route's pattern captured, decoded once")
+		if vx.ParamInt("roundtrip") == 1 {
+			// C12 inverse: building with the request's parameters (optional segment iff
+			// the request used it) reproduces the request path, for %-free paths.
+			r := &vRoutes[impl]
+			used := len(segs) >= len(r.segs)
+			back := leaf.URLPath(map[string]string(params), used)
+			norm := ""
+			for _, sg := range segs {
+				norm += "/" + sg
+			}
+			vx.Assert(vx.Or(vHasPct(path), back == norm), "C12: URL building with a request's parameters reproduces the request path")
+		}
 	} else {
 		vx.Reach("not-found")
 	}
